@@ -44,7 +44,13 @@ type instanceInfo struct {
 	Obls   int
 }
 
+type instRef struct {
+	en  *Engine
+	res *FuncResult
+}
+
 type checkRun struct {
+	insts     map[string]instRef
 	prop      *PropSpec
 	tier      string
 	seed      int64
@@ -108,7 +114,7 @@ func cmdCheck(args []string) {
 		}
 	}
 	t0 := time.Now()
-	run := &checkRun{prop: p, tier: *tier, seed: seed, timeout: *timeout, assumed: map[string]bool{}, inlined: map[string]bool{}, funcs: map[string]bool{}}
+	run := &checkRun{prop: p, tier: *tier, seed: seed, timeout: *timeout, assumed: map[string]bool{}, inlined: map[string]bool{}, funcs: map[string]bool{}, insts: map[string]instRef{}}
 	cfgs := p.Quick
 	if *tier == "thorough" {
 		cfgs = p.Thorough
@@ -146,6 +152,8 @@ func cmdCheck(args []string) {
 			continue
 		}
 		violations++
+		run.tryReplay(&ors[i], all[i], *repo, filepath.Join(*verif, "replays", id))
+		r = ors[i]
 		path := writeReplay(*verif, id, all[i], r, *repo)
 		suffix := ""
 		if !r.Replayed {
@@ -261,6 +269,7 @@ func (run *checkRun) generate(en *Engine, p *PropSpec) []*Obligation {
 						run.undecided = append(run.undecided, fmt.Sprintf("%s{%s}[%s]: %s", r.Func, r.AliasCase, en.cfgName, e))
 					}
 					run.instances = append(run.instances, instanceInfo{Func: r.Func, Config: en.cfgName, Alias: r.AliasCase, Paths: r.Paths, Obls: len(r.Obligations)})
+					run.insts[r.InstName+"["+en.cfgName+"]"] = instRef{en, r}
 					out = append(out, r.Obligations...)
 					if r.Cover != nil {
 						out = append(out, r.Cover)
@@ -452,4 +461,55 @@ func writeEvidence(run *checkRun, verif string, wall time.Duration, violations i
 	os.MkdirAll(filepath.Join(verif, "evidence"), 0o755)
 	b, _ := json.MarshalIndent(ev, "", " ")
 	os.WriteFile(filepath.Join(verif, "evidence", run.prop.ID+".json"), b, 0o644)
+}
+
+// tryReplay runs the counterexample of a failed obligation on the real code.
+func (run *checkRun) tryReplay(r *OblResult, o *Obligation, repo, dir string) {
+	if len(r.Model) == 0 {
+		return
+	}
+	// obligation names look like  <inst>[<cfg>]/<kind>#n
+	i := strings.LastIndex(r.Name, "/")
+	if i < 0 {
+		return
+	}
+	ref, ok := run.insts[r.Name[:i]]
+	if !ok || ref.res.Replay == nil {
+		return
+	}
+	src, ok := ref.res.Replay.genTest(r.Model)
+	if !ok {
+		return
+	}
+	work, err := os.MkdirTemp("", "govc-replay-")
+	if err != nil {
+		return
+	}
+	defer os.RemoveAll(work)
+	ro := runReplay(repo, ref.res.Replay, src, work)
+	r.ReplayCmd = ro.Cmd
+	tsrc := filepath.Join(dir, sanitize(r.Name)+"_test.go.txt")
+	os.MkdirAll(dir, 0o755)
+	os.WriteFile(tsrc, []byte(src), 0o644)
+	if !ro.Ran {
+		r.ReplayLog = "replay did not run: " + truncate(ro.Log, 600)
+		return
+	}
+	fc := ref.res.Contract
+	if ro.Panicked {
+		if fc.Panics == nil && !fc.MayPanic {
+			r.Replayed = true
+			r.ReplayLog = "the real function panics on this input although its contract forbids it; test source: " + tsrc + "\n" + truncate(ro.Log, 600)
+		} else {
+			r.ReplayLog = "the real function panics on this input (allowed by the contract under a condition); test source: " + tsrc
+		}
+		return
+	}
+	viol, und := ref.en.checkPostsConcrete(ref.res.Replay, fc, ref.res.PC, r.Model, ro)
+	if len(viol) > 0 {
+		r.Replayed = true
+		r.ReplayLog = fmt.Sprintf("replayed on the real code (%s): postcondition(s) false on the real outputs: %s; test source: %s", ref.res.Replay.Config.Name, strings.Join(viol, " ;; "), tsrc)
+	} else {
+		r.ReplayLog = fmt.Sprintf("the real code ran on the model input and every evaluable postcondition held (%d not evaluable); test source: %s", len(und), tsrc)
+	}
 }
